@@ -409,9 +409,20 @@ package errbase
 
 //@ type opaqueWrapper invariant[C03,C12] safeDetailsW(self.details)
 
+// C12 (retention): the safe details of one layer (sdOf), of the whole chain (allSD: one payload per
+// layer, outermost first, nothing skipped) and their folding into one string list by barriers and
+// secondary errors (foldSD: every layer of the hidden chain, in order, through Fill)
+//@ spec func sdOf(e error) SafeDetailPayload
+//@ spec func fillOf(p SafeDetailPayload, s []string) []string
+//@ spec func allSD(e error, acc []SafeDetailPayload) []SafeDetailPayload
+//@ unfold allSD(e, acc) = e == nil ? acc : allSD(cause1(e), seqAppend(acc, sdOf(e)))
+//@ spec func foldSD(e error, acc []string) []string
+//@ unfold foldSD(e, acc) = e == nil ? acc : foldSD(cause1(e), fillOf(sdOf(e), acc))
+
 //@ func GetSafeDetails
 //@   props C03 C12
 //@   requires err != nil
+//@   defines sdOf(err)
 //@   ensures result.OriginalTypeName == (typeis(err, *opaqueLeaf) ? err.(*opaqueLeaf).details.OriginalTypeName : (typeis(err, *opaqueLeafCauses) ? err.(*opaqueLeafCauses).details.OriginalTypeName : (typeis(err, *opaqueWrapper) ? err.(*opaqueWrapper).details.OriginalTypeName : fullNameT(typeof(err)))))
 //@   ensures result.ErrorTypeMark == tmark(err)
 //@   ensures hasMethod(typeof(err), "SafeDetails() []string") ==> result.SafeDetails == SafeDetailsM(err)
@@ -419,6 +430,14 @@ package errbase
 
 //@ method (*SafeDetailPayload).Fill
 //@   props C03 C12
+//@   defines fillOf(deref(self), slice)
+//@   ensures[C12] len(self.SafeDetails) == 0 ==> result == slice
+//@   ensures[C12] len(self.SafeDetails) > 0 ==> len(result) == len(slice) + 1 + len(self.SafeDetails)
+//@   ensures[C12] forall i int :: 0 <= i && i < len(slice) ==> result[i] == slice[i]
+//@   ensures[C12] len(self.SafeDetails) > 0 ==> (forall j int :: 0 <= j && j < len(self.SafeDetails) ==> result[len(slice) + 1 + j] == "  " + self.SafeDetails[j])
+//@   loop 1: invariant[C12] len(slice) == len(old(slice)) + 1 + $n
+//@           invariant[C12] forall i int :: 0 <= i && i < len(old(slice)) ==> slice[i] == old(slice)[i]
+//@           invariant[C12] forall j int :: 0 <= j && j < $n ==> slice[len(old(slice)) + 1 + j] == "  " + self.SafeDetails[j]
 //@   conceal safeSeq
 //@   uses safe_append safe_elem
 //@   ensures[C03] safeSeq(slice) && safeSeq(self.SafeDetails) && safeS(self.ErrorTypeMark.FamilyName) && safeS(self.ErrorTypeMark.Extension) ==> safeSeq(result)
@@ -429,5 +448,7 @@ package errbase
 //@ func GetAllSafeDetails
 //@   props C03 C12
 //@   conceal safeSeq
+//@   ensures[C12] result == allSD(err, nil)
+//@   loop 1: invariant[C12] allSD(err, details) == allSD(old(err), nil)
 //@   ensures[C03] forall i int :: 0 <= i && i < len(result) ==> safeS(result[i].OriginalTypeName) && safeS(result[i].ErrorTypeMark.FamilyName) && safeS(result[i].ErrorTypeMark.Extension) && safeSeq(result[i].SafeDetails)
 //@   loop 1: invariant[C03] forall i int :: 0 <= i && i < len(details) ==> safeS(details[i].OriginalTypeName) && safeS(details[i].ErrorTypeMark.FamilyName) && safeS(details[i].ErrorTypeMark.Extension) && safeSeq(details[i].SafeDetails)
